@@ -97,6 +97,8 @@ def graph(ctx, quick):
     for w in ("Reach_TwoPasses", "Reach_Err"):
         c.tlc_l1(ctx, "ForwardGen.tla", "MC_ForwardGen_%s.cfg" % w, expect_violation=w, workers=2, timeout=900)
     cfg = {"maxc": 3, "paths": ["k", "A.x", "A.y"]}
+    # a deep graph over three rules (plain, no-loop, lock-on-active in a group) with rules removed and re-added between executes
+    c.graph_leg(ctx, "ForwardGen.tla", "forward", "Gen_ForwardGen_rm.cfg", cfg, 300 if quick else 5000, 10, 0)
     if quick:
         c.graph_leg(ctx, "ForwardGen.tla", "forward", "Gen_ForwardGen.cfg", cfg, 300, 7, 0, "Sim_ForwardGen.cfg", 300, 9)
     else:
